@@ -328,8 +328,18 @@ def reaction_tuple(rxn):
 def to_bioscrape(model, cls=None, **kw):
     from bioscrape.types import Model
     cls = cls or Model
+    tuples = []
+    for r in model["reactions"]:
+        t = reaction_tuple(r)
+        if r["type"] == "massaction":
+            # reactions with the same mass-action parameters share one dictionary object, as a caller re-using a dict would
+            for u in tuples:
+                if u[2] == "massaction" and u[3] == t[3] and "species" not in t[3]:
+                    t = t[:3] + (u[3],) + t[4:]
+                    break
+        tuples.append(t)
     return cls(species=list(model["species"]),
-               reactions=[reaction_tuple(r) for r in model["reactions"]],
+               reactions=tuples,
                parameters=[(k, v) for k, v in model.get("params", {}).items()],
                rules=[rule_tuple(r) for r in model.get("rules", [])],
                initial_condition_dict=dict(model["init"]), **kw)
